@@ -269,7 +269,7 @@ func init() {
 		Batches:      func(tier string) int { return 16 },
 		ChildTimeout: func(string) time.Duration { return 40 * time.Minute },
 		Run:          runC07,
-		Required:     []string{"committees_compared", "proposers_compared", "sync_committees_compared", "next_sync_committee_compared", "committee_count_1", "committee_count_max", "committee_count_between", "synthetic_states", "chain_states", "proposer_candidates_rejected", "sync_duplicate_members_seen"},
+		Required:     []string{"committees_compared", "proposers_compared", "sync_committees_compared", "next_sync_committee_compared", "committee_count_1", "committee_count_max", "committee_count_between", "synthetic_states", "chain_states", "proposer_candidates_rejected", "sync_duplicate_members_seen", "synthetic_twin_states"},
 	})
 	fw.Register(&fw.Prop{
 		ID:    "C08",
@@ -433,25 +433,71 @@ func c07Synthetic(b *fw.B, i, n int) {
 	if fork >= refspec.Bellatrix {
 		st.LatestExecutionPayloadHeader = refspec.ExecutionPayloadHeader{LogsBloom: make([]byte, p.BYTES_PER_LOGS_BLOOM), ExtraData: []byte{}}
 	}
+	if !c07Judge(b, zspec, sp, st, sc.Preset, fork, epoch, i == 0 && b.Batch == 0, "") || rng.IntN(2) == 0 {
+		return
+	}
+	// a twin in the same process: same randao mixes, same registry length and slot, but other validators active and other effective
+	// balances; anything remembered from the first state under too weak a key (seed, registry size) would answer for the twin
+	tw := st.Copy()
+	changed := 0
+	for k := 0; k < 1+len(tw.Validators)/16; k++ {
+		v := &tw.Validators[rng.IntN(len(tw.Validators))]
+		switch rng.IntN(3) {
+		case 0:
+			if refspec.IsActive(v, epoch) {
+				v.ExitEpoch = epoch - 1
+			} else {
+				v.ActivationEpoch, v.ExitEpoch = 0, refspec.FarFuture
+			}
+		case 1:
+			if v.ExitEpoch == refspec.FarFuture {
+				v.ExitEpoch = epoch + uint64(rng.IntN(2))
+			} else {
+				v.ExitEpoch = refspec.FarFuture
+			}
+		default:
+			v.EffectiveBalance = effs[rng.IntN(len(effs))] * p.EFFECTIVE_BALANCE_INCREMENT
+		}
+		changed++
+	}
+	if fork >= refspec.Altair {
+		if len(sp.ActiveIndices(tw, epoch+1)) == 0 {
+			return
+		}
+		scm, err := sp.NextSyncCommittee(tw)
+		if err != nil {
+			return
+		}
+		tw.CurrentSyncCommittee, tw.NextSyncCommittee = scm, scm
+	}
+	if c07Judge(b, zspec, sp, tw, sc.Preset, fork, epoch, false, "twin of the previous state (same randao mixes and registry length, other active set) — ") {
+		b.Inc("synthetic_twin_states")
+	}
+}
+
+// c07Judge loads a reference state into zrnt and compares all assignments of a fresh context with the spec's.
+func c07Judge(b *fw.B, zspec *common.Spec, sp *refspec.Spec, st *refspec.State, preset string, fork int, epoch uint64, sample bool, label string) bool {
+	p := sp.P
+	total := len(st.Validators)
 	active := sp.ActiveIndices(st, epoch)
-	b.Case("synthetic", fmt.Sprintf("%s fork=%s validators=%d active=%d epoch=%d", sc.Preset, refspec.ForkNames[fork], total, len(active), epoch))
+	b.Case("synthetic", fmt.Sprintf("%s%s fork=%s validators=%d active=%d epoch=%d", label, preset, refspec.ForkNames[fork], total, len(active), epoch))
 	data := sp.S.StateBytes(st)
 	zst, err := sim.LoadZrntState(zspec, fork, data)
 	if err != nil {
 		b.Violate("synthetic/decode", fmt.Sprintf("zrnt cannot decode a synthetic state: %v", err), nil)
-		return
+		return false
 	}
 	var epc *common.EpochsContext
 	if !b.NoPanic("fresh-context/panic", func() { epc, err = common.NewEpochsContext(zspec, zst) }) {
-		return
+		return false
 	}
 	if len(active) == 0 || len(sp.ActiveIndices(st, epoch+1)) == 0 || (epoch > 0 && len(sp.ActiveIndices(st, epoch-1)) == 0) {
 		b.Inc("synthetic_states_without_active_validators_not_judged")
-		return
+		return false
 	}
 	if err != nil {
 		b.Violate("fresh-context/error", fmt.Sprintf("NewEpochsContext failed on a synthetic state (%d active): %v", len(active), err), nil)
-		return
+		return false
 	}
 	b.Inc("synthetic_states")
 	// did the proposer sampling have to reject candidates? (observability of the rejection loop)
@@ -468,12 +514,12 @@ func c07Synthetic(b *fw.B, i, n int) {
 		root := sp.S.StateRoot(st)
 		b.Nontrivial(root[:])
 	}
-	if i == 0 && b.Batch == 0 {
-		b.Sample(map[string]any{"synthetic_state": fmt.Sprintf("%s fork=%s validators=%d active=%d epoch=%d", sc.Preset, refspec.ForkNames[fork], total, len(active), epoch)})
+	if sample {
+		b.Sample(map[string]any{"synthetic_state": fmt.Sprintf("%s fork=%s validators=%d active=%d epoch=%d", preset, refspec.ForkNames[fork], total, len(active), epoch)})
 	}
-	compareAssignments(b, func(sig, what string) {
+	return compareAssignments(b, func(sig, what string) {
 		b.Violate(sig, what, map[string]any{"state_ssz_hex_prefix": fmt.Sprintf("%x", data[:min(len(data), 400)])})
-	}, zspec, sp, st, zst, epc, fmt.Sprintf("synthetic %s state (%d validators, %d active, epoch %d)", sc.Preset, total, len(active), epoch))
+	}, zspec, sp, st, zst, epc, fmt.Sprintf("%ssynthetic %s state (%d validators, %d active, epoch %d)", label, preset, total, len(active), epoch))
 }
 
 func runC08(b *fw.B) {
